@@ -223,7 +223,10 @@ def gen_call(rng, plots=True):
         return {'fn': 'plot_density_and_hist', 'obj': S, 'gated': rng.chance(0.5), 'bins': rng.choice(['none', 'pair']),
                 'hist_list': rng.chance(0.5)}
     if fam == 'plot_violin':
-        return {'fn': 'plot_violin', 'obj': S, 'dose': rng.chance(0.4), 'ch': 'FL1-H'}
+        return {'fn': 'plot_violin', 'obj': rng.choice([S, 'rfi', 'mef']), 'dose': rng.chance(0.4), 'ch': rng.choice(['FL1-H', 'FL2-H']),
+                'positions': rng.choice([[1.0, 2.0], [0.0, 10.0], [0, 1, 100], [5, 0, 50]]),
+                'xscale': rng.choice([None, 'linear', 'log']), 'yscale': rng.choice([None, 'linear', 'log', 'logicle']),
+                'vert': rng.chance(0.8), 'oned': rng.chance(0.3)}
     return {'fn': 'plot_std_crv'}
 
 
@@ -397,13 +400,24 @@ def build_call(F, op, target, pool, beads=None):
               'density_params': dp, 'hist_channels': ['FL1-H', 'FL2-H'], 'hist_params': hp}
         return Call(F.plot.density_and_hist, [T], kw, label='plot.density_and_hist')
     if fn == 'plot_violin':
-        data = [T[0:40], T[20:55]]
+        pos = list(op.get('positions', [1.0, 2.0]))
+        n = T.shape[0]
+        k = max(1, n // (len(pos) + 1))
+        data = [T[i * k:(i + 1) * k + 5] for i in range(len(pos))]
+        ch = op['ch']
+        if op.get('oned'):
+            data = [d[:, ch] for d in data]
+            ch = None
+        kw = {'channel': ch, 'positions': pos}
+        for key in ('xscale', 'yscale'):
+            if op.get(key) is not None:
+                kw[key] = op[key]
         if op['dose']:
-            return Call(F.plot.violin_dose_response, [data], {'channel': op['ch'], 'positions': [1.0, 10.0],
-                                                              'min_data': T[5:25], 'xscale': 'log'},
-                        watch=[T, data], label='plot.violin_dose_response')
-        return Call(F.plot.violin, [data], {'channel': op['ch'], 'positions': [1.0, 2.0]}, watch=[T, data],
-                    label='plot.violin')
+            kw.update(min_data=(T[5:25] if not op.get('oned') else T[5:25][:, op['ch']]))
+            kw.setdefault('xscale', 'log')
+            return Call(F.plot.violin_dose_response, [data], kw, watch=[T, data, pos], label='plot.violin_dose_response')
+        kw['vert'] = op.get('vert', True)
+        return Call(F.plot.violin, [data], kw, watch=[T, data, pos], label='plot.violin')
     if fn == 'plot_std_crv':
         mef = np.array([800, 2500, 8000, 25000, 80000.])
         rfi = np.exp((np.log(mef) - 2.0) / 1.05)
